@@ -68,6 +68,8 @@ func main() {
 	ex := NewExec(ld.Prog, lib, *prop)
 	ex.callSites = map[string][]string{}
 	ex.findSentinels()
+	ex.ApplySchemas()
+	ex.checkImmutable()
 	fns := ex.targets(*only)
 	if *list {
 		for _, f := range fns {
@@ -102,6 +104,16 @@ func main() {
 	stats := ex.Discharge(smtDir, tmo, seed, 12, *tier == "thorough")
 	if os.Getenv("GOVC_DEBUG") != "" {
 		fmt.Fprintf(os.Stderr, "discharge took %.1fs\n", time.Since(tD).Seconds())
+	}
+	if os.Getenv("GOVC_DEBUG") != "" {
+		for k, v := range ex.inlineCount {
+			if v > 200 {
+				fmt.Fprintf(os.Stderr, "inlined %d times: %s\n", v, k)
+			}
+		}
+		for _, r := range reps {
+			fmt.Fprintf(os.Stderr, "paths=%d obls=%d %s %s\n", r.Paths, r.Obligations, r.Key, r.Inst)
+		}
 	}
 	if *dump {
 		for _, o := range ex.obls {
